@@ -151,17 +151,19 @@ func vExecStep(s *drv.Server, bucket string, m *model.VersionModel, st vstep, st
 			}
 			return fail("copy-refused", "copy of a key whose unqualified read serves an object answered "+resp.String())
 		case 200:
+			// x-amz-version-id of a copy names the version the copy created
 			id := resp.Header.Get("x-amz-version-id")
-			if m.Enabled && (id == "" || m.SeenID(id)) {
-				// the handler reports the source's version id in this header; learn the new id from the read below
-				id = ""
-			}
 			g := s.Get(bucket, st.Key)
-			if gid := g.Header.Get("x-amz-version-id"); m.Enabled && gid != "" && !m.SeenID(gid) {
-				id = gid
-			}
-			if m.Enabled && id == "" {
-				return fail("version-id-missing", "the version created by a copy in an Enabled bucket has no fresh version id (GET says "+g.Header.Get("x-amz-version-id")+")")
+			if m.Enabled {
+				if id == "" {
+					return fail("version-id-missing", "a copy into an Enabled bucket got no x-amz-version-id")
+				}
+				if m.SeenID(id) {
+					return fail("version-id-reused", "a copy into an Enabled bucket reports version id "+id+", which was handed out before (GET of the key now reports "+g.Header.Get("x-amz-version-id")+")")
+				}
+				if gid := g.Header.Get("x-amz-version-id"); gid != id {
+					return fail("copy-version-id-mismatch", "the copy reports version id "+id+" but an unqualified GET serves version "+gid)
+				}
 			}
 			var src *model.VEntry
 			for _, c := range cands {
